@@ -183,14 +183,23 @@ def parse_config_file(contents: str) -> Settings:
     if not tool:
         return Settings()
 
+    if not isinstance(tool, dict):
+        raise ValueError('refurb: "tool" must be a TOML table')  # pragma: no cover
+
     config = tool.get("refurb")
 
     if not config:
         return Settings()
 
+    if not isinstance(config, dict):
+        raise ValueError('refurb: "tool.refurb" must be a TOML table')  # pragma: no cover
+
     settings = Settings()
 
     settings.load = pop_list(config, "load")
+
+    if not all(isinstance(x, str) for x in settings.load):
+        raise ValueError('refurb: "load" must be a list of strings')  # pragma: no cover
     settings.quiet = pop_bool(config, "quiet")
     settings.disable_all = pop_bool(config, "disable_all")
     settings.enable_all = pop_bool(config, "enable_all")
